@@ -70,6 +70,10 @@ pub struct Shape {
     /// and the lookup input is q * x + (1 - q) so that inactive rows look up the default
     #[serde(default)]
     pub tbl_nozero: bool,
+    /// the "fx" operations write their fixed cell twice: a non-zero value first, then the final one (zero for the
+    /// operations at even positions)
+    #[serde(default)]
+    pub fx_overwrite: bool,
     /// number of additive-selector (trash) arguments (0..=2)
     pub trash: usize,
     /// number of advice columns with equality enabled (0..=3); instance columns
@@ -677,7 +681,13 @@ impl Circuit<F> for ShapeCircuit {
                         }
                         Op::Fx { x } => {
                             cfg.s_fx.enable(&mut r, 0)?;
-                            let xf = F::from(*x);
+                            let mut xf = F::from(*x);
+                            if sh.fx_overwrite {
+                                r.assign_fixed(|| "f0", cfg.fx, 0, || Value::known(xf + F::from(7u64)))?;
+                                if oi % 2 == 0 {
+                                    xf = F::ZERO;
+                                }
+                            }
                             r.assign_fixed(|| "f", cfg.fx, 0, || Value::known(xf))?;
                             r.assign_advice(|| "x", cfg.a[2], 0, || self.val(oi, 0, xf))?;
                         }
@@ -787,6 +797,7 @@ pub fn random_shape(seed: u64) -> Shape {
         lookups: rng.gen_range(0..=2),
         lookup_any: rng.gen_range(0..=1),
         tbl_nozero: rng.gen_range(0..3) == 0,
+        fx_overwrite: rng.gen_range(0..3) == 0,
         trash: rng.gen_range(0..=2),
         perm: rng.gen_range(0..=3),
         seed,
